@@ -47,6 +47,9 @@ type Search struct {
 	WithTotal bool            `json:"total,omitempty"`
 	Interval  uint64          `json:"interval,omitempty"`
 	Aggs      []simenv.AggReq `json:"aggs,omitempty"`
+	// Fails: the request is built to fail inside the fractions it reaches (a sum over a field whose values are
+	// not numbers): an error is the expected answer, only that it answers, and what it leaves behind, matter
+	Fails bool `json:"fails,omitempty"`
 }
 
 // Step is one step of the script executed by the root task.
